@@ -90,7 +90,13 @@ def to_dim(x):
             return e.as_long()
         if z3.is_const(e) and e.decl().name().startswith("dim_"):
             return rep(DIMS[e.decl().name()[4:]])
-        raise Unmodelled("size expression %s (only plain dimensions are modelled)" % e)
+        # a size computed from other sizes (e.g. the number of parameters): a dimension of its own, tied to the expression
+        nm = "(" + str(e).replace("dim_", "").replace("\n", "").replace(" ", "") + ")"
+        dd = DIMS.get(nm)
+        if dd is None:
+            dd = DIMS[nm] = Dim(nm)
+            dd.z = e
+        return rep(dd)
     raise Unmodelled("size object %r" % (x,))
 
 
@@ -307,6 +313,12 @@ def to_E(x):
     if isinstance(x, astvc.SymInt):
         d = to_dim(x)
         return E.const(d) if isinstance(d, int) else E.atom(("dim", d.name))
+    if isinstance(x, astvc.SymReal):
+        e = z3.simplify(x.e)
+        if z3.is_app(e) and e.decl().kind() == z3.Z3_OP_TO_REAL:
+            return to_E(astvc.SymInt(e.arg(0)))
+        if z3.is_rational_value(e):
+            return E.const(Fr(e.numerator_as_long(), e.denominator_as_long()))
     raise Unmodelled("scalar of type %s in a symbolic-shape tensor expression" % type(x).__name__)
 
 
@@ -723,7 +735,7 @@ def val_of(t):
         return from_concrete(t)
     if isinstance(t, GScalar):
         return Val((), (), t.e)
-    if isinstance(t, (int, float, Fr, np.integer, np.floating, astvc.SymInt, E)):
+    if isinstance(t, (int, float, Fr, np.integer, np.floating, astvc.SymInt, astvc.SymReal, E)):
         return Val((), (), to_E(t))
     raise Unmodelled("operand of type %s" % type(t).__name__)
 
@@ -1488,6 +1500,32 @@ def _numel(t):
     return r
 
 
+class Packed:
+    """parameters_to_vector under its contract: the concatenation of the flattened pieces, kept piece by piece.
+    Arithmetic acts piecewise (what the same arithmetic on the flat vector does)."""
+
+    def __init__(self, pieces):
+        self.pieces = list(pieces)
+
+    def _b(self, o, f):
+        if isinstance(o, Packed):
+            if len(o.pieces) != len(self.pieces):
+                raise RuntimeError("packed vectors of different layouts")
+            return Packed([f(a, b) for a, b in zip(self.pieces, o.pieces)])
+        return Packed([f(a, o) for a in self.pieces])
+
+    def __add__(self, o): return self._b(o, lambda a, b: a + b)
+    __radd__ = __add__
+    def __sub__(self, o): return self._b(o, lambda a, b: a - b)
+    def __rsub__(self, o): return self._b(o, lambda a, b: b - a)
+    def __mul__(self, o): return self._b(o, lambda a, b: a * b)
+    __rmul__ = __mul__
+    def __truediv__(self, o): return self._b(o, lambda a, b: a / b)
+    def __neg__(self): return Packed([-a for a in self.pieces])
+    def __iter__(self): return iter(self.pieces)
+    def __len__(self): return len(self.pieces)
+
+
 class GScalar:
     """What .item() returns: a python-level number whose value is a scalar expression."""
 
@@ -1810,3 +1848,13 @@ def to_lean(e, env=None, depth=0):
         body = " * ".join(fs) if fs else "(1 : ℝ)"
         parts.append("%s * %s(%s)" % (coef, "".join(binders), body) if binders else "%s * (%s)" % (coef, body))
     return " + ".join(parts)
+
+
+def _sym_tensor_op(f, sym, tensor, reflected):
+    """SymInt/SymReal (op) GT, reached when torch's own operator returns NotImplemented for the scalar type."""
+    if reflected:      # tensor (op) sym
+        return new(ewise(lambda x, y: f(x, y), tensor, sym))
+    return new(ewise(lambda x, y: f(y, x), tensor, sym))
+
+
+astvc.TENSOR_OPS = _sym_tensor_op
